@@ -558,17 +558,18 @@ static inline int answer_from_qmem_data(int dns_fd, int userid,
 }
 
 /* Is q the same query as the one that is waiting in *held? Relays that
-   repeat a query may have changed its letter case; that makes no difference
-   for pings, nor for data encoded in Base32. */
+   repeat a query may have changed its letter case. That makes no difference
+   for pings, nor for data encoded in Base32. In the other codecs case is
+   data, but two different queries of one client never differ in case only:
+   the CMC in the (Base32) data header tells them apart, just as in the
+   duplicate memory. So a copy that differs in case only is a copy, mangled
+   or not, in any codec. */
 static inline int same_waiting_query(int userid, struct query *q,
 				     struct query *held)
 {
 	if (q->type != held->type)
 		return 0;
-	if (q->name[0] == 'P' || q->name[0] == 'p' ||
-	    users[userid].encoder == &base32_ops)
-		return !strcasecmp(q->name, held->name);
-	return !strcmp(q->name, held->name);
+	return !strcasecmp(q->name, held->name);
 }
 
 /* The answer to *held will also go to its duplicate *q, spelled as in *q. */
